@@ -7,6 +7,7 @@ A file is rewritten only when its content changes (keeps `lake build` a no-op ot
 Exit 1 if something cannot be extracted (the construct moved or changed shape).
 """
 import os
+import json
 import re
 import sys
 
@@ -294,6 +295,35 @@ def main():
     w("/-- agc_compressor.rs `impl Ord for ContigTask`: the fields compared, outermost first, and")
     w("    whether the comparison is reversed (`other.f.cmp(&self.f)`). -/")
     w("def taskCmpKeys : List (String × Bool) := [" + ", ".join('("%s", %s)' % (k, "true" if r else "false") for k, r in keys) + "]")
+    # --- RawBufferedSegment ordering (what `raw_segs.sort()` in classify_raw_segments_at_barrier uses)
+    m = re.search(r"impl Ord for RawBufferedSegment \{(.*?)\n\}\n", a, flags=re.S)
+    if not m:
+        raise ValueError("impl Ord for RawBufferedSegment not found")
+    keys = []
+    for cm in re.finditer(r"(self|other)\.(\w+)\.cmp\(&(self|other)\.(\w+)\)", strip_comments(m.group(1))):
+        if cm.group(2) != cm.group(4) or cm.group(1) == cm.group(3):
+            raise ValueError("RawBufferedSegment::cmp: unexpected comparison %r" % cm.group(0))
+        keys.append((cm.group(2), cm.group(1) == "other"))
+    if not keys:
+        raise ValueError("RawBufferedSegment::cmp: no comparisons found")
+    w("/-- agc_compressor.rs `impl Ord for RawBufferedSegment`: fields compared, outermost first, and")
+    w("    whether the comparison is reversed. -/")
+    w("def rawSegCmpKeys : List (String × Bool) := [" + ", ".join('("%s", %s)' % (k, "true" if r else "false") for k, r in keys) + "]")
+    # does classify_raw_segments_at_barrier sort the drained vector before anything else reads it?
+    m = re.search(r"\nfn classify_raw_segments_at_barrier\((.*?)\n\}\n", a, flags=re.S)
+    if not m:
+        raise ValueError("classify_raw_segments_at_barrier not found")
+    body = strip_comments(m.group(1))
+    uses = [u.start() for u in re.finditer(r"\braw_segs\b", body)]
+    # expected uses in order: declaration, append in the drain loop, is_empty test, sort(), then the rest
+    stmts = [body[u:u + 80].split(";")[0].split("{")[0].strip() for u in uses[:5]]
+    ok = (len(stmts) >= 5 and stmts[0].startswith("raw_segs: Vec<RawBufferedSegment> = Vec::new()")
+          and stmts[1].startswith("raw_segs.append(") and stmts[2].startswith("raw_segs.is_empty()")
+          and stmts[3] == "raw_segs.sort()")
+    w("/-- agc_compressor.rs `classify_raw_segments_at_barrier`: the drained vector is declared, filled by")
+    w("    `append` from the per-worker buffers, tested for emptiness and then SORTED (`raw_segs.sort()`)")
+    w("    before any other statement reads it. First uses seen: %s -/" % json.dumps(stmts).replace("-/", "- /"))
+    w("def classifySortsDrained : Bool := " + ("true" if ok else "false"))
     w("")
     w("end Ragc.Gen")
     text = "\n".join(out) + "\n"
